@@ -17,6 +17,7 @@ type Call struct {
 	// document calls
 	Path []json.RawMessage `json:"path"` // path from the root to the container the call is made on
 	Tgt  json.RawMessage   `json:"tgt"`  // patch target
+	Dead bool              `json:"dead"` // the call is made on a container that was removed (a handle obtained earlier)
 }
 
 // Act is one action of OrdaReplica.
